@@ -413,7 +413,9 @@ fn c06_check(lines: &[String], configs: &[C06Config], sink: &Sink) {
             continue;
         }
         if outcome.blocks().len() != batch.blocks.len() + batch.companions.len() {
-            sink.machinery(format!("C06: scaffold yielded {} blocks, expected {} for {input}", outcome.blocks().len(), batch.blocks.len() + batch.companions.len()));
+            // The blocks are there by construction (and are found on the unchanged tree): a block
+            // that is not found cannot get the diagnostics the property promises.
+            sink.fail("C06:blocks-not-found-as-written", format!("the file holds {} blocks, {} were found; lines {lines:?}\n{}", batch.blocks.len() + batch.companions.len(), outcome.blocks().len(), batch.text()), input.clone());
             continue;
         }
         check_companions("C06", &batch, outcome.diags(), sink, &input);
@@ -650,7 +652,7 @@ fn c07_check(lines: &[String], sink: &Sink) {
         return;
     }
     if outcome.blocks().len() != batch.blocks.len() + batch.companions.len() {
-        sink.machinery(format!("C07: scaffold yielded {} blocks for {input}", outcome.blocks().len()));
+        sink.fail("C07:blocks-not-found-as-written", format!("the file holds {} blocks, {} were found; lines {lines:?}\n{}", batch.blocks.len() + batch.companions.len(), outcome.blocks().len(), batch.text()), input.clone());
         return;
     }
     check_companions("C07", &batch, outcome.diags(), sink, &input);
@@ -754,7 +756,7 @@ fn c08_check(lines: &[String], sink: &Sink) {
         return;
     }
     if outcome.blocks().len() != batch.blocks.len() + batch.companions.len() {
-        sink.machinery(format!("C08: scaffold yielded {} blocks for {input}", outcome.blocks().len()));
+        sink.fail("C08:blocks-not-found-as-written", format!("the file holds {} blocks, {} were found; lines {lines:?}\n{}", batch.blocks.len() + batch.companions.len(), outcome.blocks().len(), batch.text()), input.clone());
         return;
     }
     check_companions("C08", &batch, outcome.diags(), sink, &input);
@@ -962,7 +964,7 @@ fn c09_check(seq: &[u8], sink: &Sink) {
         }
         let nested = seq.iter().filter(|&&s| s == 5).count();
         if outcome.blocks().len() != expected.len() * (1 + nested) + companions.len() {
-            sink.machinery(format!("C09: scaffold yielded {} blocks, expected {} for {input}", outcome.blocks().len(), expected.len() * (1 + nested) + companions.len()));
+            sink.fail(format!("C09:blocks-not-found-as-written:{layout:?}"), format!("layout {layout:?}, content {content:?}: the file holds {} blocks, {} were found", expected.len() * (1 + nested) + companions.len(), outcome.blocks().len()), input.clone());
             continue;
         }
         let in_companion = |d: &Diag| companions.iter().position(|c| c.0 == d.code && c.1 <= d.range.0 as usize && d.range.0 as usize <= c.2);
